@@ -114,6 +114,12 @@ type Case struct {
 	hooked   bool
 	baseline bool
 	brf, brs bool
+	// frameProblems is per thread (threads append concurrently in free mode);
+	// Finish merges it into Problems
+	frameProblems [][]string
+	// templateThread, when set (free-running mode, copy-before), keeps the
+	// template itself running while the copies run
+	templateThread func()
 }
 
 // Options of NewCase.
@@ -130,6 +136,10 @@ type Options struct {
 	// halt_on_error the known race would otherwise end the pass at once and
 	// hide every other race.
 	NoBridgeFunc, NoBridgeSlice bool
+	// BusyTemplate (free-running mode only): in copy-before the template itself
+	// runs a small loop on a goroutine of its own while its copies run, and the
+	// copies make the frames observation in their threads as well.
+	BusyTemplate bool
 }
 
 // bridgedStruct is the Go struct the template exposes by pointer.
@@ -170,6 +180,9 @@ func (c *Case) equip(tid int, vm *otto.Otto) {
 		}
 		return otto.UndefinedValue()
 	})
+	// twins, created in THIS runtime, of the bridged values the template carries
+	_ = vm.Set("gconv2", func(n int) int { return n * 2 })
+	_ = vm.Set("gstruct2", &bridgedStruct{N: 7, S: "s"})
 	_ = vm.Set("BRF", c.brf)
 	_ = vm.Set("BRS", c.brs)
 	_ = vm.Set("TID", tid+1) // per-thread constant: lets equal programs pass different arguments
@@ -255,7 +268,7 @@ func parseProgram(src string) *ast.Program {
 // NewCase instantiates a scenario.
 func NewCase(sp Spec, opt Options) *Case {
 	n := len(sp.Bodies)
-	c := &Case{Spec: sp, Logs: make([][]string, n), VMs: make([]*otto.Otto, n), yield: opt.Yield, hooked: opt.Yield != nil, baseline: opt.Baseline, brf: !opt.NoBridgeFunc, brs: !opt.NoBridgeSlice}
+	c := &Case{Spec: sp, Logs: make([][]string, n), VMs: make([]*otto.Otto, n), yield: opt.Yield, hooked: opt.Yield != nil, baseline: opt.Baseline, brf: !opt.NoBridgeFunc, brs: !opt.NoBridgeSlice, frameProblems: make([][]string, n)}
 	c.Threads = make([]func(), n)
 
 	newTemplate := func(syncPoints bool, queued int) *otto.Otto {
@@ -344,7 +357,11 @@ func NewCase(sp Spec, opt Options) *Case {
 			}
 		}
 	case ScCopyBefore:
-		c.Template = newTemplate(false, 1) // copied here, before the threads exist
+		queued := 1
+		if opt.BusyTemplate {
+			queued = 0 // the template runs and would consume its own interrupt
+		}
+		c.Template = newTemplate(false, queued) // copied here, before the threads exist
 		for i := range c.Threads {
 			i := i
 			vm := c.Template.Copy()
@@ -354,7 +371,14 @@ func NewCase(sp Spec, opt Options) *Case {
 					c.exec(i, vm, fmt.Sprintf("run%d:%s", k, Bodies[b].Name), Bodies[b].Src)
 				}
 				c.exec(i, vm, "probe", Probe)
+				if opt.BusyTemplate {
+					c.frames(i, vm, "frames while the template runs")
+				}
 			}
+		}
+		if opt.BusyTemplate {
+			t := c.Template
+			c.templateThread = func() { _ = ox.Run(t, TemplateSpin) }
 		}
 	case ScCopyDuring:
 		c.Template = newTemplate(true, 1)
@@ -454,6 +478,12 @@ func (c *Case) Finish() {
 		otto.VerifSetStepHook(vm, nil)
 		otto.VerifSetSyncHook(vm, nil)
 		c.Logs[i] = append(c.Logs[i], runLine(vm, "post", PostSrc))
+		if c.Template != nil {
+			c.frames(i, vm, "frames at rest")
+		}
+	}
+	for _, l := range c.frameProblems {
+		c.Problems = append(c.Problems, l...)
 	}
 	if t := c.Template; t != nil {
 		otto.VerifSetSyncHook(t, nil)
@@ -466,6 +496,25 @@ func (c *Case) Finish() {
 		c.TemplateLog = append(c.TemplateLog, runLine(t, "template", TemplatePostSrc))
 	}
 }
+
+// frames runs FramesSrc on a copy and records a problem when a native function
+// object created in the template builds its errors from another call chain
+// than the copy's own.
+func (c *Case) frames(i int, vm *otto.Otto, what string) {
+	line := runLine(vm, what, FramesSrc)
+	c.Logs[i] = append(c.Logs[i], line)
+	if k := strings.Index(line, "FOREIGN-FRAMES"); k >= 0 {
+		msg := line[k:]
+		if len(msg) > 700 {
+			msg = msg[:700] + " ..."
+		}
+		c.frameProblems[i] = append(c.frameProblems[i], fmt.Sprintf("T%d %s: %s", i, what, msg))
+	}
+}
+
+// TemplateThread returns the function that keeps the template running (nil in
+// all but the free-running copy-before cases).
+func (c *Case) TemplateThread() func() { return c.templateThread }
 
 // AllLogs returns the thread logs followed, for template scenarios, by the
 // template's own log.
